@@ -1,5 +1,6 @@
 """Facts for C03 (ContentComparer.compare): the key-binding regex keyRE, the way
-compare() applies it, and the keys of the stats dictionary pushed to
+compare() applies it, the guard under which a checked entity is appended to
+`skips`, and the keys of the stats dictionary pushed to
 Observer.updateStats.  Everything is read from the working tree; anything
 unexpected raises (fail closed)."""
 import ast
@@ -58,6 +59,28 @@ def stats_keys():
     return keys
 
 
+def skip_guard():
+    """the only guarded `skips.append(l10nent)`: once per entity, by membership (identity:
+    entities define no __eq__); the unguarded one is `skips.append(junk)`"""
+    from compare_locales.parser import base
+    for cls in (base.Entry, base.Entity, base.Junk):
+        if "__eq__" in cls.__dict__:
+            raise ValueError("%s defines __eq__: `l10nent not in skips` is no longer identity" % cls)
+    want = "tp == 'error' and merge_file is not None and (l10nent not in skips)"
+    found = []
+    for node in ast.walk(_compare_tree()):
+        if isinstance(node, ast.If) and [ast.unparse(s) for s in node.body] == ["skips.append(l10nent)"]:
+            if node.orelse:
+                raise ValueError("the skip guard has an else branch")
+            found.append(ast.unparse(node.test))
+    if found != [want]:
+        raise ValueError("unexpected guard of skips.append(l10nent): %r" % found)
+    appends = [ast.unparse(n) for n in ast.walk(_compare_tree())
+               if isinstance(n, ast.Call) and ast.unparse(n.func) == "skips.append"]
+    if sorted(appends) != ["skips.append(junk)", "skips.append(l10nent)"]:
+        raise ValueError("unexpected appends to skips: %r" % appends)
+
+
 def add_counts():
     """ContentComparer.add pushes {'missing': len(entities)} and {'missing_w': missing_w}"""
     from compare_locales.compare.content import ContentComparer
@@ -72,6 +95,7 @@ def add_counts():
 
 def generate():
     key_test()
+    skip_guard()
     add_counts()
     keys = stats_keys()
     lines = [HEADER, "From Coq Require Import NArith List.", "Import ListNotations.", "",
